@@ -68,7 +68,7 @@ pub fn xargs(sc: &XargsScenario, plan: &[ReadOp], ctx: &mut Ctx, bins: &Path) ->
         return Xc::NotComparable;
     }
     // the real command line is longer than the placeholder: -s budgets would differ
-    if sc.opts.iter().any(|o| matches!(o, crate::xargs::Opt::S(_))) {
+    if sc.opts.iter().any(|o| matches!(o, crate::xargs::Opt::S(_) | crate::xargs::Opt::ArgFile)) {
         return Xc::NotComparable;
     }
     let fake = run_xargs_with(sc, plan, ctx);
@@ -166,7 +166,7 @@ pub fn find_real(sc: &FindScenario, ctx: &mut Ctx, bins: &Path, sub: &str, cmd_t
     let script = script_of(&sc.outcomes).ok_or("outcome not scriptable")?;
     let _ = std::fs::write(&sp, script);
     let mut argv: Vec<String> = vec![];
-    for a in &sc.argv {
+    for a in &sc.full_argv() {
         if a == cmd_token || *a == format!("{cmd_token}2") {
             argv.push(ctx.simchild.to_string_lossy().into_owned());
             argv.push(lp.to_string_lossy().into_owned());
@@ -269,7 +269,7 @@ pub fn pipeline_real(find_sc: &FindScenario, xargs_opts: &[String], outcomes: &[
     let sp = dir.join("child.script");
     let _ = std::fs::write(&sp, script_of(outcomes).ok_or("outcome not scriptable")?);
     let mut f = Command::new(bins.join("find"));
-    f.args(&find_sc.argv).current_dir(&root).stdin(Stdio::null()).stdout(Stdio::piped()).stderr(Stdio::null());
+    f.args(find_sc.full_argv()).current_dir(&root).stdin(Stdio::null()).stdout(Stdio::piped()).stderr(Stdio::null());
     base_env(&mut f, ctx);
     let mut fchild = f.spawn().map_err(|e| format!("cannot start find: {e}"))?;
     let pipe = fchild.stdout.take().unwrap();
